@@ -129,10 +129,11 @@ theorem minv_settle {O log keys org start} (hO : GoodOrders O) (hS : Scn log key
         foldl_inv (MInv O log keys org start) (Mgr.drainChan O fuel) _ (fun _ => True)
           (fun b a hb _ => minv_drainChan hO hS fuel b a hb) m h (fun _ _ => trivial)
       generalize (m.chans.map (·.id)).foldl (Mgr.drainChan O fuel) m = m1 at h1
-      rw [h1.internal]
-      simp only [List.foldl]
-      exact ⟨⟨h1.coh.hlog, h1.coh.box, h1.coh.tr, h1.coh.wf, h1.coh.pend, h1.coh.nobox⟩, h1.p0, h1.q0, h1.c0,
-        h1.queues, rfl⟩
+      have h2 : MInv O log keys org start { m1 with internal := [] } :=
+        ⟨⟨h1.coh.hlog, h1.coh.box, h1.coh.tr, h1.coh.wf, h1.coh.pend, h1.coh.nobox⟩, h1.p0, h1.q0, h1.c0,
+          h1.queues, fun cont hc => by simp at hc⟩
+      exact foldl_inv (MInv O log keys org start) (Mgr.applyCombined O) m1.internal (fun cont => ∀ e ∈ cont, e ∈ log)
+        (fun b a hb ha => minv_applyCombined hO hS hb a ha) _ h2 h1.internal
 
 /-! ### Harness actions -/
 
@@ -248,6 +249,7 @@ theorem minv_act {O log keys org start} (hO : GoodOrders O) (hS : Scn log keys o
   | chSlice n => exact minv_world h _ rfl rfl rfl rfl
   | tlNext => exact minv_world h _ rfl rfl rfl rfl
   | chTlNext c => exact minv_world h _ rfl rfl rfl rfl
+  | extra k ids => exact minv_world h _ rfl rfl rfl rfl
 
 theorem minv_runActions {O log keys org start} (hO : GoodOrders O) (hS : Scn log keys org)
     (acts : List Action) (m : Mgr) (h : MInv O log keys org start m) :
